@@ -20,7 +20,7 @@ def job(rule, opts, n, seats, maxlen, N, monitors, budget, **kw):
 def wigm_configs(tier):
     cfgs = [
         (FX2, 6), ({'arithmetic': 'integer'}, 6), (dict(FX2, integer_quota=True), 6), (dict(FX2, defeat_batch='zero'), 6),
-        (G44, 5), (dict(RAT), None),
+        (G44, 5), (dict(RAT), None), (dict(RAT, integer_quota=True), None),
         (dict(FX2, display=0), 5),      # display digits below the working precision must not matter to the count
     ]
     if tier == 'thorough':
@@ -51,7 +51,7 @@ def base_grid(tier, monitors, gregory_only=False, meek_only=False, symtie=False,
     jobs = []
     quick = tier != 'thorough'
     bump = (0 if quick else 2) + more
-    B = 240 if quick else 1500
+    B = 600 if quick else 1500
 
     def want(rule):
         if rules is not None and rule not in rules:
@@ -133,6 +133,12 @@ def base_grid(tier, monitors, gregory_only=False, meek_only=False, symtie=False,
                 if rule == 'meek-prf' and not quick:
                     n4 = 4          # nine-digit arithmetic: the slowest rule
                 jobs.append(job(rule, opts, 4, seats, 1 if quick else 2, n4, monitors, B, symtie=symtie, weight=2 if quick else 20))
+        if quick and not meek_only:
+            # two candidates elected in the same round and a third lifted to the quota by the first of the two transfers:
+            # four candidates, three seats, rankings of length two (thorough has these for every rule, with more ballots)
+            for rule, opts in [('wigm-prf', {}), ('wigm', dict(FX2)), ('cfer', {}), ('mpls', {})]:
+                if want(rule):
+                    jobs.append(job(rule, opts, 4, 3, 2, 5, monitors, B, symtie=symtie, weight=5))
         if want('scotland') and not meek_only:
             # three-way ties whose earlier stages differ (rules 49/51) need four candidates and transfers
             jobs.append(job('scotland', {}, 4, 2, 2, 5 if quick else 6, monitors, B, symtie=symtie, weight=4))
